@@ -5,7 +5,7 @@
 
 use std::ops::RangeInclusive;
 
-use klukai_agent::api::peer::verif_exports::chunk_range;
+use klukai_agent::api::peer::verif_exports::{chunk_range, send_change_chunks};
 use klukai_types::{
     api::{ColumnName, SqliteValue, TableName},
     base::{CrsqlDbVersion, CrsqlSeq},
@@ -24,13 +24,13 @@ pub fn check() -> Check {
         spec: CheckSpec {
             prop: "C08",
             level: "exploration",
-            rule: "case = (start,last,set of seqs,per-change sizes,limit schedule) for ChunkedChanges, or (range,chunk size) for chunk_range; bounded-exhaustive over start<=3,last<=7,all seq subsets x 6 limits, then seeded random larger cases; non-trivial = at least 2 chunks produced or a hole/early end in the seq list; distinct by hash of the case",
+            rule: "case = (start,last,set of seqs,per-change sizes,limit schedule) for ChunkedChanges, the same case through the sync server's send_change_chunks loop (whole-version request and sub-range of a longer version; what arrives on the channel must tile the requested range), or (range,chunk size) for chunk_range; bounded-exhaustive over start<=3,last<=7,all seq subsets x 6 limits, then seeded random larger cases; non-trivial = at least 2 chunks produced or a hole/early end in the seq list; distinct by hash of the case",
             assumptions: &[
                 "chunk size 0 for chunk_range is outside the function's domain (step_by(0) panics by contract)",
                 "start <= last and seqs strictly increasing inside [start,last] (the property's domain)",
             ],
             min_nontrivial: 500,
-            required_stats: &["chunker.cases", "chunk_range.cases", "chunker.multi_chunk", "chunker.limit_changed"],
+            required_stats: &["chunker.cases", "chunk_range.cases", "chunker.multi_chunk", "chunker.limit_changed", "sender.cases", "sender.multi_chunk", "sender.empty_sub_range_answered"],
         },
         budget: (20, 240),
         workers: (4, 12),
@@ -165,6 +165,71 @@ pub fn run_case(c: &Case) -> Result<(usize, bool), (String, serde_json::Value)> 
         }
     }
     Ok((out.len(), limit_changed))
+}
+
+/// The same case through the real `send_change_chunks` (the sync server's sender loop
+/// over ChunkedChanges): what arrives on the channel must tile the requested range.
+/// `version_last` is the version's last seq (>= the requested end).
+pub fn run_sender_case(c: &Case, version_last: u64) -> Result<usize, (String, serde_json::Value)> {
+    use klukai_types::{
+        actor::ActorId,
+        broadcast::{Changeset, Timestamp},
+        sync::{SyncMessage, SyncMessageV1},
+    };
+    let items: Vec<rusqlite::Result<Change>> = c.seqs.iter().zip(c.sizes.iter()).map(|(s, sz)| Ok(mk_change(*s, *sz))).collect();
+    let (tx, mut rx) = tokio::sync::mpsc::channel::<SyncMessage>(c.seqs.len() + 8);
+    let chunked = ChunkedChanges::new(items.into_iter(), CrsqlSeq(c.start), CrsqlSeq(c.last), c.limits[0]);
+    let actor = ActorId(uuid::Uuid::from_bytes([7; 16]));
+    let res = send_change_chunks(&tx, chunked, actor, CrsqlDbVersion(1), CrsqlSeq(version_last), Timestamp::from(7u64));
+    drop(tx);
+    let mut out: Vec<(Vec<u64>, u64, u64, u64)> = vec![];
+    while let Ok(m) = rx.try_recv() {
+        if let SyncMessage::V1(SyncMessageV1::Changeset(cv)) = m
+            && let Changeset::Full { changes, seqs, last_seq, .. } = cv.changeset
+        {
+            out.push((changes.iter().map(|c| c.seq.0).collect(), seqs.start().0, seqs.end().0, last_seq.0));
+        }
+    }
+    let d = |what: &str| (format!("sender/{what}"), json!({"case": describe(c), "version_last_seq": version_last, "result": format!("{res:?}"), "sent": out.iter().map(|(s, a, b, l)| json!({"seqs": s, "range": [a, b], "last_seq": l})).collect::<Vec<_>>()}));
+    if res.is_err() {
+        return Err(d("returned-an-error"));
+    }
+    let whole_version = c.start == 0 && c.last == version_last;
+    if out.is_empty() {
+        // only an entirely empty answer for a whole version may be skipped (such a
+        // version is answered as cleared elsewhere)
+        if c.seqs.is_empty() && whole_version {
+            return Ok(0);
+        }
+        return Err(d("requested-range-not-covered-by-any-changeset"));
+    }
+    let mut expect = c.start;
+    let mut all = vec![];
+    for (seqs, a, b, l) in out.iter() {
+        if *a != expect {
+            return Err(d(if *a < expect { "overlap" } else { "gap" }));
+        }
+        if *b < *a || *b > c.last {
+            return Err(d("range-outside-request"));
+        }
+        if *l != version_last {
+            return Err(d("wrong-last-seq"));
+        }
+        for s in seqs {
+            if s < a || s > b {
+                return Err(d("change-outside-range"));
+            }
+            all.push(*s);
+        }
+        expect = b + 1;
+    }
+    if expect != c.last + 1 {
+        return Err(d("sent-changesets-stop-short-of-the-requested-range"));
+    }
+    if all != c.seqs {
+        return Err(d("changes-lost-duplicated-or-reordered"));
+    }
+    Ok(out.len())
 }
 
 fn describe(c: &Case) -> serde_json::Value {
@@ -339,6 +404,23 @@ fn run(ctx: &mut Ctx) {
 }
 
 fn eval_case(ctx: &mut Ctx, case: &Case) {
+    if case.err_at.is_none() {
+        // whole-version request and a request for a sub-range of a longer version
+        for extra in [0u64, 2] {
+            ctx.stat("sender.cases", 1);
+            match run_sender_case(case, case.last + extra) {
+                Ok(n) => {
+                    if n > 1 {
+                        ctx.stat("sender.multi_chunk", 1);
+                    }
+                    if case.seqs.is_empty() && n > 0 {
+                        ctx.stat("sender.empty_sub_range_answered", 1);
+                    }
+                }
+                Err((sig, detail)) => ctx.violation(sig, detail),
+            }
+        }
+    }
     ctx.stat("chunker.cases", 1);
     let h = hash_of(&(case.start, case.last, &case.seqs, &case.sizes, &case.limits, case.err_at));
     let holes = case.seqs.len() as u64 != case.last - case.start + 1;
